@@ -200,8 +200,11 @@ def build_hosted(rng, *, capacity: int, grain: int, ngte: int = 512, states=None
 
 def build_stream_optimized(rng, *, capacity: int, grain: int, ngte: int = 512, states=None, tag: int = 1,
                            descriptor: str | None = None, level: int = 6, version: int = 3, incompressible_frac: float = 0.15,
-                           tuned_frac: float = 0.35, slots: bool = False):
-    """Stream-optimized hosted sparse extent: compressed grains with markers, GD located via the footer."""
+                           tuned_frac: float = 0.35, slots: bool = False, embedded_lba: bool = True):
+    """Stream-optimized hosted sparse extent: compressed grains with markers, GD located via the footer.
+
+    embedded_lba=False: the other compressed layout the format defines - no markers, each grain stored as
+    {uint32 size, deflate stream}, tables and directory as in a plain hosted extent (directory offset in the header)."""
     ngrains = -(-capacity // grain)
     if states is None:
         states = _states(rng, ngrains, "AAU")
@@ -214,7 +217,7 @@ def build_stream_optimized(rng, *, capacity: int, grain: int, ngte: int = 512, s
     gd_sectors = -(-(ngd * 4) // SECTOR)
     desc_bytes = (descriptor or "").encode()
     desc_size = -(-len(desc_bytes) // SECTOR) if desc_bytes else 0
-    flags = 0x30001
+    flags = 0x30001 if embedded_lba else 0x10001
     sf = SparseFile()
     cur = 1 + desc_size
     if desc_bytes:
@@ -260,7 +263,7 @@ def build_stream_optimized(rng, *, capacity: int, grain: int, ngte: int = 512, s
                 stats["tuned"] = stats.get("tuned", 0) + 1
             raw = src.phys_bytes(g * grain, grain)
             comp = zlib.compress(raw, level)
-            rec = struct.pack("<QI", g * grain, len(comp)) + comp
+            rec = (struct.pack("<QI", g * grain, len(comp)) if embedded_lba else struct.pack("<I", len(comp))) + comp
             rec = rec.ljust(-(-len(rec) // SECTOR) * SECTOR, b"\0")
             sf.put(cur * SECTOR, rec)
             gt[e] = cur
@@ -272,27 +275,32 @@ def build_stream_optimized(rng, *, capacity: int, grain: int, ngte: int = 512, s
             cur += max(len(rec) // SECTOR, grain if slots else 0)
         if any_alloc or rng.random() < 0.3:
             # grain table marker + table
-            sf.put(cur * SECTOR, struct.pack("<QII", gt_sectors, 0, 1).ljust(SECTOR, b"\0"))
-            cur += 1
+            if embedded_lba:
+                sf.put(cur * SECTOR, struct.pack("<QII", gt_sectors, 0, 1).ljust(SECTOR, b"\0"))
+                cur += 1
             sf.put(cur * SECTOR, struct.pack(f"<{ngte}I", *gt))
             gd.append(cur)
             cur += gt_sectors
         else:
             gd.append(0)
-    sf.put(cur * SECTOR, struct.pack("<QII", gd_sectors, 0, 2).ljust(SECTOR, b"\0"))
-    cur += 1
+    if embedded_lba:
+        sf.put(cur * SECTOR, struct.pack("<QII", gd_sectors, 0, 2).ljust(SECTOR, b"\0"))
+        cur += 1
     gd_sector = cur
     sf.put(cur * SECTOR, struct.pack(f"<{ngd}I", *gd))
     cur += gd_sectors
-    sf.put(cur * SECTOR, struct.pack("<QII", 1, 0, 3).ljust(SECTOR, b"\0"))
-    cur += 1
     common = dict(version=version, flags=flags, capacity=capacity, grain=grain, desc_off=1 if desc_bytes else 0,
                   desc_size=desc_size, ngte=ngte, rgd_off=0, overhead=128, compress=1)
-    sf.put(cur * SECTOR, kdmv_header(gd_off=gd_sector, **common))
-    cur += 1
-    sf.put(cur * SECTOR, b"\0" * SECTOR)  # end-of-stream marker
-    cur += 1
-    sf.put(0, kdmv_header(gd_off=GD_AT_END, **common))
+    if embedded_lba:
+        sf.put(cur * SECTOR, struct.pack("<QII", 1, 0, 3).ljust(SECTOR, b"\0"))
+        cur += 1
+        sf.put(cur * SECTOR, kdmv_header(gd_off=gd_sector, **common))
+        cur += 1
+        sf.put(cur * SECTOR, b"\0" * SECTOR)  # end-of-stream marker
+        cur += 1
+        sf.put(0, kdmv_header(gd_off=GD_AT_END, **common))
+    else:
+        sf.put(0, kdmv_header(gd_off=gd_sector, **common))
     sf.size = cur * SECTOR
 
     class _Mix:
@@ -400,7 +408,15 @@ def build_sesparse(rng, *, capacity: int, grain: int = 8, gt_sectors: int = 64, 
         exists.append(not (t not in used and (ngd > 64 or (empty_tables and rng.random() < 0.6))))
     idx_order = _order(rng, [t for t in range(ngd) if exists[t]], "shuffle" if placement != "seq" else "seq")
     slot = {t: i for i, t in enumerate(idx_order)}
-    gts_total = len(idx_order) * gt_sectors
+    if huge_index and idx_order and rng.random() < 0.6:
+        # grain tables numbered 65536 and up (the directory entry holds a 32-bit table number): a pre-allocated table area
+        # of a multi-terabyte disk looks like this
+        bump = 0
+        for t in idx_order:
+            if rng.random() < 0.4:
+                bump += rng.choice([65536, 65536, 131072, (1 << 20) + 3])
+            slot[t] += bump
+    gts_total = (max(slot.values()) + 1 if slot else 0) * gt_sectors
     grains_off = gt_off + gts_total + rng.randrange(0, 16)
     grains_off = -(-grains_off // grain) * grain
     alloc = sorted(g for g, s_ in st.items() if s_ == "A")
